@@ -23,6 +23,8 @@ type ModLoc struct {
 	All      bool
 	Contents bool // x[..] : the elements of slice x
 	Cap      bool // x[..cap] : the whole capacity window
+	Tail     bool // x[len..cap] : only the spare capacity
+	Whole    bool // x[*]  : every cell of the backing array of slice x (in-place append writes beyond len)
 	E        Expr
 	Text     string
 	Ghost    string
@@ -35,6 +37,9 @@ type Hint struct {
 }
 
 type FuncSpec struct {
+	TrustPre   []string
+	NoFrame    bool
+	AssumedEns []Clause
 	Hints      []Hint
 	Key        string // canonical function key
 	Pkg        string // short package path of the file
@@ -57,6 +62,24 @@ type FuncSpec struct {
 	BV         bool
 	Unroll     map[int]int
 	MayPanic   bool // explicit panics are not obligations here (documented rejection)
+	Lockset    string // `lockset <field>`: syntactic check that the method runs under receiver.<field> (see lockset.go)
+	Ghosts     []GhostVar    // auxiliary integer variables of the function (initialised at entry)
+	GhostUpds  []*GhostUpd   // assignments to them, anchored at a source line of the function body
+	Unreachable map[string]bool // cover names (return@<block>) that must be PROVED unreachable instead of probed for reachability
+}
+
+// GhostVar / GhostUpd: auxiliary (ghost) integer variables. They never influence the program, so adding them is sound;
+// they let an invariant talk about a quantity the code does not keep (e.g. the size of a message that will be built).
+type GhostVar struct {
+	Name string
+	Init Clause
+}
+
+type GhostUpd struct {
+	Anchor string // the trimmed source text of the statement line before which the assignment happens (must occur exactly once)
+	Name   string
+	E      Clause
+	Hits   int
 }
 
 type SpecFn struct {
@@ -67,6 +90,7 @@ type SpecFn struct {
 	Body   Expr
 	Text   string
 	Uninterp bool
+	Rec      bool // recursive over its last (integer) parameter: n <= 0 ? base : f(..., n-1)
 }
 
 type Lemma struct {
@@ -81,6 +105,7 @@ type Lemma struct {
 }
 
 type Contracts struct {
+	Shadowed []string
 	Funcs   map[string]*FuncSpec
 	SpecFns map[string]*SpecFn // by pkg.Name and by Name
 	Lemmas  []*Lemma
@@ -88,7 +113,7 @@ type Contracts struct {
 	Axioms  []Clause
 }
 
-var reFuncHdr = regexp.MustCompile(`^func\s*(\(\s*(\w+)?\s*(\*?)\s*([\w./]+)\s*\))?\s*([\w$./]+)\s*(\(([^)]*)\))?`)
+var reFuncHdr = regexp.MustCompile(`^func\s*(\(\s*(\w+)?\s*(\*?)\s*([\w./-]+)\s*\))?\s*([\w$./-]+)\s*(\(([^)]*)\))?`)
 
 func loadContracts(files []string) (*Contracts, error) {
 	cs := &Contracts{Funcs: map[string]*FuncSpec{}, SpecFns: map[string]*SpecFn{}}
@@ -101,7 +126,7 @@ func loadContracts(files []string) (*Contracts, error) {
 	return cs, nil
 }
 
-var clauseKeywords = []string{"hint", "func", "assume", "spec", "lemma", "requires", "ensures", "panics", "modifies", "reads", "pure", "loop", "property", "inline", "noinline", "fresh", "opaque", "axiom", "package", "uninterp", "maypanic", "expectfail", "mode", "unroll"}
+var clauseKeywords = []string{"rec", "trustpre", "noframe", "lockset", "assumes", "hint", "func", "assume", "spec", "lemma", "requires", "ensures", "panics", "modifies", "reads", "pure", "loop", "property", "inline", "noinline", "fresh", "opaque", "axiom", "package", "uninterp", "maypanic", "expectfail", "mode", "unroll", "unreachable", "ghost", "at"}
 
 func startsClause(s string) bool {
 	for _, k := range clauseKeywords {
@@ -205,18 +230,29 @@ func (cs *Contracts) loadFile(path string) error {
 				}
 			}
 			if old, dup := cs.Funcs[fs.Key]; dup {
-				return fail(fmt.Errorf("duplicate contract for %s (also %s)", fs.Key, old.Src))
+				switch {
+				case !old.Assume && !fs.Assume:
+					return fail(fmt.Errorf("duplicate contract for %s (also %s)", fs.Key, old.Src))
+				case old.Assume && !fs.Assume:
+					// a verified contract replaces an assumed one
+					cs.Shadowed = append(cs.Shadowed, fmt.Sprintf("%s: assumed contract at %s is shadowed by the verified contract at %s", fs.Key, old.Src, fs.Src))
+					cs.Funcs[fs.Key] = fs
+				default:
+					// keep the existing one; the clauses that follow are parsed into a detached spec
+					cs.Shadowed = append(cs.Shadowed, fmt.Sprintf("%s: assumed contract at %s is shadowed by the contract at %s", fs.Key, fs.Src, old.Src))
+				}
+			} else {
+				cs.Funcs[fs.Key] = fs
 			}
-			cs.Funcs[fs.Key] = fs
 			cur, curLemma = fs, nil
-		case "spec", "uninterp":
-			// spec Name(a T, b U) R = expr
+		case "spec", "uninterp", "rec":
+			// spec Name(a T, b U) R = expr ; rec Name(..., n int) mathint = n <= 0 ? base : step(Name(..., n - 1))
 			i := strings.Index(rest, "(")
 			j := matchParen(rest, i)
 			if i < 0 || j < 0 {
 				return fail(fmt.Errorf("bad spec header"))
 			}
-			sf := &SpecFn{Name: strings.TrimSpace(rest[:i]), Pkg: pkg, Text: rest, Uninterp: word == "uninterp"}
+			sf := &SpecFn{Name: strings.TrimSpace(rest[:i]), Pkg: pkg, Text: rest, Uninterp: word == "uninterp", Rec: word == "rec"}
 			bs, err := parseBinders(rest[i+1 : j])
 			if err != nil {
 				return fail(err)
@@ -236,6 +272,9 @@ func (cs *Contracts) loadFile(path string) error {
 					return fail(err)
 				}
 				sf.Body = e
+			}
+			if prev, dup := cs.SpecFns[pkg+"."+sf.Name]; dup {
+				return fail(fmt.Errorf("duplicate spec function %s.%s (also: %s)", pkg, sf.Name, prev.Text))
 			}
 			cs.SpecFns[pkg+"."+sf.Name] = sf
 			if _, ok := cs.SpecFns[sf.Name]; !ok {
@@ -262,6 +301,27 @@ func (cs *Contracts) loadFile(path string) error {
 			}
 			cl.Pkg = pkg
 			cs.Axioms = append(cs.Axioms, cl)
+		case "trustpre":
+			// trustpre <callee> ...: the preconditions of calls to these callees made by this function are assumed, not
+			// checked (they belong to another property's proof); listed as assumptions
+			if cur != nil {
+				cur.TrustPre = append(cur.TrustPre, strings.Fields(rest)...)
+			}
+		case "noframe":
+			// the modifies clause of this function is assumed, not checked against its body (listed as an assumption)
+			if cur != nil {
+				cur.NoFrame = true
+			}
+		case "assumes":
+			// postcondition that callers may rely on but that is NOT verified against the body (listed as an assumption)
+			if cur == nil {
+				return fail(fmt.Errorf("assumes outside func"))
+			}
+			cl, err := mkClause(rest, src)
+			if err != nil {
+				return fail(err)
+			}
+			cur.AssumedEns = append(cur.AssumedEns, cl)
 		case "requires", "ensures":
 			cl, err := mkClause(rest, src)
 			if err != nil {
@@ -302,6 +362,13 @@ func (cs *Contracts) loadFile(path string) error {
 					cur.Modifies = append(cur.Modifies, ModLoc{All: true, Text: part})
 				case strings.HasPrefix(part, "ghost "):
 					cur.Modifies = append(cur.Modifies, ModLoc{Ghost: strings.TrimSpace(part[6:]), Text: part})
+				case strings.HasSuffix(part, "[len..cap]"):
+					// the spare capacity of the slice: what an in-place append may write
+					e, err := parseExpr(part[:len(part)-10])
+					if err != nil {
+						return fail(err)
+					}
+					cur.Modifies = append(cur.Modifies, ModLoc{Contents: true, Cap: true, Tail: true, E: e, Text: part})
 				case strings.HasSuffix(part, "[..cap]"):
 					// the whole capacity window of the slice (an in-place append writes beyond len)
 					e, err := parseExpr(part[:len(part)-7])
@@ -309,6 +376,12 @@ func (cs *Contracts) loadFile(path string) error {
 						return fail(err)
 					}
 					cur.Modifies = append(cur.Modifies, ModLoc{Contents: true, Cap: true, E: e, Text: part})
+				case strings.HasSuffix(part, "[*]"):
+					e, err := parseExpr(part[:len(part)-3])
+					if err != nil {
+						return fail(err)
+					}
+					cur.Modifies = append(cur.Modifies, ModLoc{Contents: true, Whole: true, E: e, Text: part})
 				case strings.HasSuffix(part, "[..]"):
 					e, err := parseExpr(part[:len(part)-4])
 					if err != nil {
@@ -349,6 +422,55 @@ func (cs *Contracts) loadFile(path string) error {
 		case "maypanic":
 			if cur != nil {
 				cur.MayPanic = true
+			}
+		case "ghost":
+			// ghost NAME = INIT
+			if cur == nil {
+				return fail(fmt.Errorf("ghost outside func"))
+			}
+			k := strings.Index(rest, "=")
+			if k < 0 {
+				return fail(fmt.Errorf("ghost NAME = INIT"))
+			}
+			cl, err := mkClause(rest[k+1:], src)
+			if err != nil {
+				return fail(err)
+			}
+			cur.Ghosts = append(cur.Ghosts, GhostVar{Name: strings.TrimSpace(rest[:k]), Init: cl})
+		case "at":
+			// at "source line text" ghost NAME = EXPR
+			if cur == nil {
+				return fail(fmt.Errorf("at outside func"))
+			}
+			q1 := strings.Index(rest, "\"")
+			q2 := strings.LastIndex(rest, "\" ghost ")
+			if q1 != 0 || q2 <= q1 {
+				return fail(fmt.Errorf(`at "source line" ghost NAME = EXPR`))
+			}
+			tail := rest[q2+len("\" ghost "):]
+			k := strings.Index(tail, "=")
+			if k < 0 {
+				return fail(fmt.Errorf(`at "source line" ghost NAME = EXPR`))
+			}
+			cl, err := mkClause(tail[k+1:], src)
+			if err != nil {
+				return fail(err)
+			}
+			cur.GhostUpds = append(cur.GhostUpds, &GhostUpd{Anchor: strings.TrimSpace(rest[q1+1 : q2]), Name: strings.TrimSpace(tail[:k]), E: cl})
+		case "unreachable":
+			// unreachable return@<block>: a defensive branch that is dead under the (assumed) contracts of the callees;
+			// the vacuity probe of that return is replaced by the obligation that the path is infeasible
+			if cur != nil {
+				if cur.Unreachable == nil {
+					cur.Unreachable = map[string]bool{}
+				}
+				for _, f := range strings.Fields(rest) {
+					cur.Unreachable[f] = true
+				}
+			}
+		case "lockset":
+			if cur != nil {
+				cur.Lockset = rest
 			}
 		case "mode":
 			if cur != nil && rest == "bv64" {
